@@ -390,7 +390,8 @@ def annotate_file(src, fc, relfile, uid_start=0):
                     # Verus does not allow a single item of a trait impl to be external: the method keeps the
                     # TRAIT's contract, assumed (external_body) — recorded as an assumption
                     add(sib.kw, '#[verifier::external_body] ')
-                    assumed_sibs.append(sib.name)
+                    assumed_sibs.append({'name': sib.name, 'ident': '%s :: %s :: %s' % (relfile, parent.key(), sib.name),
+                                         'sha256': hashlib.sha256(src[sib.start:sib.end].encode()).hexdigest()})
                 else:
                     add(sib.kw, '#[verifier::external] ')
                 n_ext += 1
